@@ -2,7 +2,7 @@
      snaxc/transforms/dart/dart_layout_resolution.py   LayoutResolution (unit-response extraction,
                                                        after `fix:` relative to the zero response)
      snaxc/transforms/convert_dart_to_snax_stream.py   ConvertStreamToSnaxStreamPattern (per operand)
-     snaxc/dialects/snax_stream.py                     StridePattern.canonicalize
+     (StridePattern.canonicalize is not modelled by hand: Gen/StrideCanon.v via Model/C02GenCanon.v)
    and of the streamer semantics (8-byte words).  Executable definitions only. *)
 From Snax Require Import Base.Prelude Base.ListAux.
 
@@ -130,20 +130,7 @@ Definition to_pattern (bcast : bool) (spats : list Z) (dims : list dim) : res sp
 Definition relevant_dims (strides bounds : list Z) (relevant : list bool) : list dim :=
   rev (map fst (filter snd (combine (combine strides bounds) relevant))).
 
-(* StridePattern.canonicalize *)
-Definition canon_step (acc : list Z * list Z) (ut : Z * Z) : list Z * list Z :=
-  let '(nub, nts) := acc in
-  let '(ub, ts) := ut in
-  if ub =? 0 then (nub ++ [0], nts ++ [0])
-  else if ub =? 1 then acc
-  else match rev nub, rev nts with
-       | lu :: ru, lt :: _ => if lu * lt =? ts then (rev ru ++ [lu * ub], nts)
-                              else (nub ++ [ub], nts ++ [ts])
-       | _, _ => (nub ++ [ub], nts ++ [ts])
-       end.
-Definition sp_canonicalize (p : spattern) : spattern :=
-  if existsb (fun s => s =? 0) (sp_ss p) then p
-  else let '(u, t) := fold_left canon_step (combine (sp_ub p) (sp_ts p)) ([], []) in mkSP u t (sp_ss p).
+(* StridePattern.canonicalize: see Model/C02GenCanon.v (the generated definition is used) *)
 
 (* ======================= semantics ================================================================ *)
 (* loop nest, dimension 0 innermost: addresses in issue order *)
